@@ -464,11 +464,44 @@ func c08R9(c *Ctx) {
 			}
 			c.eachInstrLogical(ps, func(r instrRef) {
 				lk, ok := r.I.(*ssa.Lookup)
-				if !ok || lk.CommaOk || lk.Referrers() == nil {
+				if !ok || lk.Referrers() == nil {
 					return
 				}
 				k, isC := constString(lk.Index)
 				if !isC {
+					return
+				}
+				if lk.CommaOk {
+					// `v, ok := input[k]; if !ok { return err }` (and `v == nil` on the extracted value)
+					for _, ref := range *lk.Referrers() {
+						ex, ok := ref.(*ssa.Extract)
+						if !ok || ex.Referrers() == nil {
+							continue
+						}
+						for _, r2 := range *ex.Referrers() {
+							switch y := r2.(type) {
+							case *ssa.If:
+								if ex.Index == 1 && blockReturnsError(y.Block().Succs[1]) {
+									mandatory[k] = "its absence is refused at " + c.instrPos(y)
+								}
+							case *ssa.BinOp:
+								if ex.Index != 0 || !isNilConst(y.Y) || y.Referrers() == nil {
+									continue
+								}
+								for _, r3 := range *y.Referrers() {
+									if ifi, ok := r3.(*ssa.If); ok {
+										nilEdge := 0
+										if y.Op == token.NEQ {
+											nilEdge = 1
+										}
+										if (y.Op == token.EQL || y.Op == token.NEQ) && blockReturnsError(ifi.Block().Succs[nilEdge]) {
+											mandatory[k] = "its absence is refused at " + c.instrPos(ifi)
+										}
+									}
+								}
+							}
+						}
+					}
 					return
 				}
 				for _, ref := range *lk.Referrers() {
